@@ -175,7 +175,9 @@ func RunCheck(o CheckOpts) *CheckResult {
 		res.Obls = append(res.Obls, u.obls...)
 	}
 	// solve
-	timeout := 10
+	// quick budget: obligations on the unchanged tree discharge in well under 5 s; the margin is for
+	// loaded machines (a timeout would be a false alarm)
+	timeout := 20
 	if o.Tier == "thorough" {
 		timeout = 60
 	}
